@@ -1816,3 +1816,24 @@ impl FixtureDatabase {
         None
     }
 }
+
+// Verification hooks (see analyzer.rs).
+#[cfg(pytest_language_server_verif)]
+impl FixtureDatabase {
+    pub fn verif_find_closest_definition(
+        &self,
+        file_path: &Path,
+        fixture_name: &str,
+    ) -> Option<FixtureDefinition> {
+        self.find_closest_definition(file_path, fixture_name)
+    }
+
+    pub fn verif_find_closest_definition_excluding(
+        &self,
+        file_path: &Path,
+        fixture_name: &str,
+        exclude: Option<&FixtureDefinition>,
+    ) -> Option<FixtureDefinition> {
+        self.find_closest_definition_excluding(file_path, fixture_name, exclude)
+    }
+}
